@@ -375,6 +375,29 @@ func runC20(c *h.Ctx, idx int, events bool) {
 	var history []map[string]interface{}
 	nops := r.Range(3, 6)
 	served := 0
+	// structured histories (every second case whose subscription allows it)
+	quietOp, loudOp := "", ""
+	switch {
+	case !subscribed["chmod"]:
+		quietOp = "chmod"
+	case !subscribed["write"]:
+		quietOp = "append"
+	}
+	switch {
+	case subscribed["write"] && quietOp != "append":
+		loudOp = "append"
+	case subscribed["chmod"] && quietOp != "chmod":
+		loudOp = "chmod"
+	case subscribed["remove"]:
+		loudOp = "remove"
+	case subscribed["rename"]:
+		loudOp = "rename"
+	}
+	structured := idx%2 == 1 && quietOp != "" && loudOp != ""
+	if structured {
+		nops = 6
+		c.Count("structured_histories", 1)
+	}
 	for k := 0; k < nops; k++ {
 		var cand []string
 		for _, f := range pool {
@@ -399,6 +422,19 @@ func runC20(c *h.Ctx, idx int, events bool) {
 			target = cand[r.Intn(len(cand))]
 		}
 		op := c20op{Kind: []string{"append", "truncate", "chmod", "remove", "rename", "append", "chmod"}[r.Intn(7)], Path: target}
+		if structured {
+			// five events of an unsubscribed type on watched files, then one of a subscribed type:
+			// the watcher has to keep serving after events it ignores
+			if len(watched) > 0 {
+				op.Path = watched[r.Intn(len(watched))]
+			}
+			if k < nops-1 {
+				op.Kind = quietOp
+			} else {
+				op.Kind = loudOp
+			}
+		}
+		target = op.Path
 		before := len(runLines())
 		refMu.Lock()
 		refBefore := len(refEvents)
